@@ -14,20 +14,22 @@ from vlib import core
 
 THEOREMS = ["Props.C07." + t for t in [
     "perm_into_map", "perm_into_map_needs_distinct_keys", "ns_add_comm", "std_imports_distinct",
-    "perm_then_sort", "perm_then_sort_strings", "perm_any", "perm_sum", "replacer_perm",
+    "perm_then_sort", "perm_then_sort_strings", "perm_any", "perm_filter", "perm_sum", "replacer_perm",
     "insertion_keys_prefix_free", "insertion_replace_perm", "insertion_replace_needs_key_alphabet",
-    "descriptor_bytes_perm", "file_descriptor_perm", "plugin_request_perm", "fastgo_imports_perm",
+    "descriptor_bytes_perm", "file_descriptor_perm", "const_map_bytes_perm", "plugin_request_perm", "fastgo_imports_perm",
+    "descriptor_bytes_key_only_sort_insufficient",
     "descriptor_bytes_needs_sort", "descriptor_bytes_unsorted_order_sensitive", "file_descriptor_unsorted_order_sensitive",
     "plugin_request_unsorted_order_sensitive", "fastgo_imports_unsorted_order_sensitive",
     "site_inventory_covered", "emit_in_order_sites"]]
 
-RULE = ("in-process cases (R: Feed histories with insertion points and patches; D: FileDescriptors with 0..4 includes and 0..6 "
+RULE = ("in-process cases (V: ConstValueDescriptor maps with 0..8 string entries, keys of equal content allowed, one case per distinct byte string in 8 calls; R: Feed histories with insertion points and patches; D: FileDescriptors with 0..4 includes and 0..6 "
         "namespaces, one case per distinct byte string meta.Marshal produced in 8 calls; N: namespace.Add sequences, for "
         "pairwise-distinct names/ids also 3 random permutations) are distinct by sha256 of the op line and non-trivial when they "
         "have >=1 insertion point and >=1 patch / a map of >=2 entries / >=2 entries; dynamic cases are (generated multi-file IDL "
         "program x option set) combos, each executed runs_per_combo times with GOMAXPROCS cycling 1,2,7,16, relative and absolute "
         "output directories and once into a directory holding a stale previous output; before them a regression corpus: the 3 minimal "
-        "witnesses of the three repaired defects (40 executions each) and 3 wide variants with 8-entry maps (6 each at quick, 16 at thorough), one hash expected; a combo counts as distinct non-trivial when "
+        "witnesses of the three repaired defects (32 executions each), a map constant/default with struct keys of equal content (24) and "
+        "3 wide variants with 8-entry maps (6 each at quick, 16 at thorough), one hash expected; a combo counts as distinct non-trivial when "
         "thriftgo accepted it and it produced >=1 output file or plugin request; evaluations = in-process cases + thriftgo executions")
 
 
@@ -110,6 +112,8 @@ def run(ctx):
         ctx.cov["descriptor_marshalling"] = ("%d of %d descriptors with a >=2-entry map were marshalled to more than one byte string within 8 calls "
                                              "(0 expected: meta.write sorts the entries)" % (
                                                  multi, st["distribution"].get("D:descriptors_with_a_map_of_2+_entries", 0)))
+        ctx.cov["const_map_marshalling"] = "%d of %d const maps with keys of equal content were marshalled to more than one byte string within 8 calls (0 expected)" % (
+            st["distribution"].get("V:of_those_marshalled_to_2+_byte_strings_within_8_calls", 0), st["distribution"].get("V:maps_with_keys_of_equal_content", 0))
         ctx.cov["regression_items"] = dyn.get("regression_items", 0)
         ctx.cov["regression_items_failed"] = dyn.get("regression_items_failed") or []
         if dyn["combos"] and dyn["combos_accepted"] * 2 < dyn["combos"]:
